@@ -269,3 +269,90 @@ def reductions(ctx, world, modes=("vjp", "jvp")):
                 "the reduction called with an integer axis that is not the last one on an array whose dimensions coincide (e.g. a square matrix): NumPy right-aligns the reduced array and pairs the wrong entries silently; other shapes raise",
             )
     ctx.floor(f"A3.reduce reduction rules ({'+'.join(modes)})", n, (8 if "vjp" in modes else 0) + (6 if "jvp" in modes else 0))
+
+
+def _value_dependent(ev, t, seen=None):
+    """does the term carry VALUES of the primitive's arguments, its answer or the (co)tangent (as opposed to their
+    shapes / ranks / dtypes only)?"""
+    from ..terms import children
+
+    seen = seen if seen is not None else set()
+    if t is None or id(t) in seen:
+        return False
+    seen.add(id(t))
+    if t.op == "attr" and t.name in ("shape", "ndim", "size", "dtype"):
+        return False
+    if t.op == "call":
+        r, _ = resolve_callee(ev, t)
+        if r is not None and ((is_numpy_callable(r) and base_name(r) in ("shape", "ndim", "size", "result_type", "iscomplexobj", "isscalar")) or r.qual in ("builtins.len", "builtins.range", "builtins.isinstance", "builtins.type") or r.qual.endswith((".vspace", ".metadata"))):
+            return False
+    if (t.op == "sym" and t.get("role") in ("g", "gs", "ans")) or t.op == "arg":
+        return True
+    return any(_value_dependent(ev, c, seen) for c in children(t))
+
+
+def stacked_batches(ctx, world, modes=("vjp", "jvp")):
+    """A3.batch - det / inv / solve / cholesky / eigh / svd ... act on the last two axes and treat the leading axes as
+    a batch.  A rule that reduces over ALL axes (sum(x) without axis), takes trace with its default axes (0, 1) or
+    contracts with dot / inner / tensordot mixes the members of a stack: exact for one matrix, silently wrong for
+    (k, n, n)."""
+    from ..terms import walk as _walk
+    from ..tutil import expand
+
+    fx = facts.load("stacked_matrix_functions")
+    stacked, reds, nba = set(fx["stacked"]), set(fx["reductions"]), set(fx["not_batch_aware"])
+    ctx.describe("A3.batch", "in the rules of the stacked-matrix functions of numpy.linalg (det, slogdet, inv, pinv, solve, cholesky, eig, eigh, svd, ...) no call reduces over all axes (a reduction without an explicit axis), takes np.trace over its default axes (0, 1), or contracts with a function that is not batch-aware (dot, vdot, inner, outer, kron, tensordot): each would combine different members of a stack")
+    n = 0
+    for e in world.table.entries:
+        if e.spec != "maker" or e.mode not in modes or not world.in_numpy_scope(e) or not is_numpy_callable(e.prim) or base_name(e.prim) not in stacked:
+            continue
+        ir = world.ir(e)
+        if ir is None or not ir.ok:
+            ctx.ob("A3.batch", construct_of(e), None, e.loc)
+            continue
+        n += 1
+        bad = None
+        for root in (ir.made, ir.result):
+            if root is None or bad is not None:
+                continue
+            for t in _walk(expand(world.ev, root, ())):
+                if t.op != "call":
+                    continue
+                ref, pre = resolve_callee(world.ev, t)
+                if ref is None or not is_numpy_callable(ref):
+                    continue
+                bn = base_name(ref)
+                args = list(pre) + list(t.args)
+                sig = world.env.signature(ref.qual) or {"pos": []}
+
+                def bound(name):
+                    if name in t.kw:
+                        return t.kw[name]
+                    if name in sig["pos"] and sig["pos"].index(name) < len(args):
+                        return args[sig["pos"].index(name)]
+                    return None
+
+                if any(a.op == "star" for a in args) or t.get("dstar"):
+                    continue
+                if not args or not _value_dependent(world.ev, args[0]):
+                    continue  # min((m, n)) of two dimensions, sums over index ranges ...: no array of the stack involved
+                if bn in reds:
+                    ax = bound("axis")
+                    if ax is None or (ax.op == "const" and ax.value is None):
+                        bad = (t, f"{bn}(...) without an axis reduces over the batch axes as well")
+                elif bn == "trace":
+                    a1, a2 = bound("axis1"), bound("axis2")
+                    neg = lambda v: v is not None and v.op == "const" and type(v.value) is int and v.value < 0
+                    if not (neg(a1) and neg(a2)):
+                        bad = (t, "trace over its default axes (0, 1) takes the trace across the batch axis of a stack")
+                elif bn in nba:
+                    bad = (t, f"{bn} is not batch-aware: on stacks it contracts / pairs entries of different members")
+                if bad is not None:
+                    break
+        inst = construct_of(e)
+        if bad is None:
+            ctx.ob("A3.batch", inst, True, e.loc)
+        else:
+            txt = norm_text(bad[0].node) if bad[0].node is not None else str(bad[0])
+            ctx.fail("A3.batch", inst, f"{e.mode}:{e.prim_id}|batch:{txt[:60]}", e.loc, f"`{txt[:80]}`: {bad[1]}", f"{base_name(e.prim)} of a stack of matrices, shape (k, n, n) with k > 1: exact for a single matrix, wrong for every member of the stack")
+    ctx.floor(f"A3.batch rules of stacked-matrix functions ({'+'.join(modes)})", n, 8 if "vjp" in modes else 0)
